@@ -23,7 +23,7 @@ func init() {
 		Level: "exploration",
 		Rule: "trial = real channel (sync/queued) with a recording life-cycle probe; 1..6 closers with distinct errors are released together from: user goroutines, inside the active / read / event / exception handlers, a transport read failure, a sender write failure, parent-context end, holder.CloseAll; writers and reads are in flight; hook gates place closers against each other, the sender and the read loop; " +
 			"plus bootstrap trials (mock factory) checking that active completed before Connect returned / before the acceptor was asked for the next connection. Oracle over the recorded event log: active exactly once and finished before the first read and before the channel was handed out; reads never concurrent; transport closed exactly once; inactive exactly once carrying the error of the Close call that won (attributed through the vpCloseElected hook and goroutine ids); " +
-			"IsActive()==false sampled after every Close return; Context().Err()!=nil sampled after the winning Close returned; the read-loop action returns after an unswallowed read failure; distinct_nontrivial = distinct (mode, closer kinds multiset, winner kind, event-order signature) tuples",
+			"IsActive()==false sampled after every Close return; Context().Err()!=nil sampled after the winning Close returned; the read-loop action returns after an unswallowed read failure (also when the application's exception handler itself panics: strict-exc trials, non-termination decided by >20000 failed reads delivered on an open channel); distinct_nontrivial = distinct (mode, closer kinds multiset, winner kind, event-order signature) tuples",
 		Assumptions: []string{"bounded progress: termination of the read loop is judged at executor quiescence with a watchdog (inconclusive on expiry)"},
 		Shards:      func(tier string) int { return 8 },
 		TimeoutSec:  func(tier string) int { return map[bool]int{true: 300, false: 2400}[tier != "thorough"] },
